@@ -864,6 +864,16 @@ func TestC20Schedules(t *testing.T) {
 			continue
 		}
 		allowed := sc.sequentialOutcomes()
+		if sc.SeqStuck != nil {
+			var names []string
+			for _, o := range sc.SeqStuck {
+				names = append(names, fmt.Sprintf("t%d:%s", o[0], sc.Threads[o[0]][o[1]].Name))
+			}
+			rep.Violate(vk.Violation{Sig: "c20-sequential-run-blocks:" + strings.SplitN(sc.Name, ":", 2)[0],
+				Msg:    fmt.Sprintf("%s: the operations run one after the other on a single thread, in the order %v, did not return within %v: an operation waits for something only its own caller can release", sc.Name, names, seqStuckAfter),
+				Replay: map[string]any{"scenario": sc.Name, "sequential_order": names}})
+			continue
+		}
 		seen := map[string]int{}
 		completed := -1
 		for b := 0; b <= bound; b++ {
@@ -976,6 +986,9 @@ func TestC20Race(t *testing.T) {
 	var runs int64
 	for _, sc := range filtered(scenarios()) {
 		allowed := sc.sequentialOutcomes()
+		if sc.SeqStuck != nil {
+			continue // reported by the schedules phase
+		}
 		for o := range allowed {
 			if strings.Contains(o, forbiddenMarker) {
 				rep.Violate(vk.Violation{Sig: "c20-returned-value-changed-later:" + strings.SplitN(sc.Name, ":", 2)[0], Msg: fmt.Sprintf("%s, even sequentially: outcome {%s}", sc.Name, o)})
@@ -1031,6 +1044,10 @@ func replaySchedule(rep *vk.Report, scs []*Scenario, file string) {
 			continue
 		}
 		allowed := sc.sequentialOutcomes()
+		if sc.SeqStuck != nil {
+			rep.Violate(vk.Violation{Sig: "c20-sequential-run-blocks:" + strings.SplitN(sc.Name, ":", 2)[0], Msg: sc.Name + ": the operations run one after the other on a single thread do not return"})
+			continue
+		}
 		first := ""
 		for k := 0; k < 5; k++ {
 			bodies, outcome := sc.bodies()
